@@ -136,6 +136,13 @@ def run_pairs(case, ctx, rng):
         intops(ctx, B, a, y)
     ctx.exhaustive['binary operators on all operand pairs of widths 0..6'] += cnt
 
+def m_catlist(vals):
+    """model of folding // over (value, size) pairs: the first one ends up in the low positions"""
+    v, n = 0, 0
+    for x, sz in vals:
+        v |= x << n; n += sz
+    return (v, n)
+
 def unary(ctx, B, a, amounts=None):
     from crysp.utils.operators import rol, ror, concat
     n = a[1]
@@ -166,6 +173,12 @@ def unary(ctx, B, a, amounts=None):
             pcs = call(lambda: A.split(sub))
             if not is_exc(pcs) and pcs:
                 res_ok(ctx, 'law:concat(split)', call(concat, pcs), a, sub=sub, **det)
+                # the big-endian fold (first piece in the high positions), given a list or a tuple, twice; the caller's pieces untouched
+                bsnap = [vs(x) for x in pcs]
+                wantb = m_catlist([vs(x) for x in reversed(pcs)])
+                for form, arg in (('list', pcs), ('list again', pcs), ('tuple', tuple(pcs))):
+                    res_ok(ctx, 'law:concat(split)', call(concat, arg, True), wantb, sub=sub, bigend=True, form=form, **det)
+                ctx.check('operand-unchanged', [vs(x) for x in pcs] == bsnap, [vs(x) for x in pcs], bsnap, op='concat(bigend=True)', **det)
     for m in (0, n - 1, n, n + 1, n + 5, 2 * n + 1):
         if m < 0:
             continue
